@@ -10,7 +10,7 @@
 #include <sys/syscall.h>
 #include <linux/futex.h>
 
-enum { ST_RUN, ST_MUTEX, ST_FUTEX, ST_JOIN, ST_POLL };
+enum { ST_RUN, ST_MUTEX, ST_FUTEX, ST_JOIN, ST_POLL, ST_SLEEP };
 
 struct vthread {
 	int used, done, frozen, started, joined;
@@ -23,6 +23,7 @@ struct vthread {
 	void *wait_obj;
 	int wait_tid;
 	int woken;
+	unsigned long wake_step;
 	unsigned long steps, relax;
 	void (*sigh)(void);
 	int sigblocked, sigdepth;
@@ -271,6 +272,7 @@ static int runnable(int t)
 	case ST_MUTEX: return mtx_of(v->wait_obj)->owner == -1;
 	case ST_FUTEX: return v->woken;
 	case ST_JOIN: return T[v->wait_tid].done;
+	case ST_SLEEP: return steps >= v->wake_step;
 	}
 	return 0;
 }
@@ -286,8 +288,20 @@ static int pick_next(int self_ok)
 		if (T[i].st == ST_POLL) poll[np++] = i;
 		else cand[nc++] = i;
 	}
-	if (nc == 0 && np == 0)
-		return -1;
+	if (nc == 0 && np == 0) {
+		/* only logical sleepers left: time jumps to the earliest wake-up */
+		unsigned long best = 0;
+		int bi = -1;
+		for (i = 0; i < nthreads; i++)
+			if (T[i].used && !T[i].done && !T[i].frozen && T[i].st == ST_SLEEP && (i != self || self_ok) &&
+			    (bi < 0 || T[i].wake_step < best)) {
+				best = T[i].wake_step;
+				bi = i;
+			}
+		if (bi >= 0 && best > steps)
+			steps = best;
+		return bi;
+	}
 	if (strategy == 1) {
 		/* PCT: highest priority runnable non-polling thread; polling threads last */
 		int best = -1;
@@ -388,6 +402,12 @@ static void *wrapper(void *p)
 	vrt_tid = (int)(me - T);
 	me->started = 1;
 	pthread_setspecific(exit_key, me);
+	{
+		/* symbolic name for this thread's stack (on-stack wait nodes etc.) */
+		char here;
+		uintptr_t top = ((uintptr_t)&here + 4096) & ~(uintptr_t)4095;
+		vrt_name((void *)(top - (1 << 20)), 1 << 20, "stack%d", vrt_tid);
+	}
 	me->ret = me->fn(me->arg);
 	return me->ret;
 }
@@ -589,6 +609,13 @@ static long do_futex(int32_t *uaddr, int op, int32_t val)
 		return 0;
 	}
 	if (op == FUTEX_WAKE) {
+		if (f_enosys >= 1000) {
+			/* futex() unavailable altogether: compat wake is a no-op */
+			vrt_log("FUTEX_WAKE %s n=%d -> ENOSYS", vrt_loc(uaddr), val);
+			vrt_in_prim--;
+			errno = ENOSYS;
+			return -1;
+		}
 		for (i = 0; i < nthreads && n < val; i++)
 			if (T[i].used && !T[i].done && T[i].st == ST_FUTEX && T[i].wait_obj == uaddr && !T[i].woken) {
 				T[i].woken = 1;
@@ -679,6 +706,18 @@ void vrt_relax_impl(void)
 	me->st = ST_RUN;
 	vrt_log("RELAX");
 	vrt_in_prim--;
+}
+
+/* logical sleep: the thread is not scheduled for the next `n` global steps */
+void vrt_sleep(unsigned long n)
+{
+	struct vthread *me = &T[vrt_tid];
+	if (!vrt_active)
+		return;
+	me->st = ST_SLEEP;
+	me->wake_step = steps + n;
+	sched();
+	me->st = ST_RUN;
 }
 
 /* ---- signals ----------------------------------------------------------------------------- */
